@@ -774,7 +774,7 @@ pub fn exec(sc: &mut dyn ScopeOps, ctx: &mut Ctx<'_>) -> Flow {
                 o.insert("via".into(), json!("vec"));
                 ctx.record(i, Some(sc), o);
             }
-            "vec_extend" | "vec_shrink" | "vec_truncate" => {
+            "vec_extend" | "vec_shrink" | "vec_truncate" | "vec_splice_huge" => {
                 ctx.pc += 1;
                 let id = u(&args, "id") as u64;
                 let mut o;
@@ -803,6 +803,10 @@ pub fn exec(sc: &mut dyn ScopeOps, ctx: &mut Ctx<'_>) -> Flow {
                                 ve.obj.shrink_to_fit();
                                 Ok(())
                             }
+                            "vec_splice_huge" => match ve.obj.splice_huge(vtag(id, 1000 + i)) {
+                                Some(true) => std::panic::panic_any(String::from("capacity overflow (splice)")),
+                                _ => Ok(()),
+                            },
                             _ => {
                                 ve.obj.truncate(u(&args, "n"));
                                 Ok(())
@@ -824,6 +828,10 @@ pub fn exec(sc: &mut dyn ScopeOps, ctx: &mut Ctx<'_>) -> Flow {
                         Err(e) => {
                             o = Ctx::obs("panic");
                             o.insert("msg".into(), json!(panic_msg(&e)));
+                            if a == "vec_splice_huge" && ve.tags.len() > 1 {
+                                // the removed element was replaced before the overflow was noticed
+                                ve.tags[1] = vtag(id, 1000 + i);
+                            }
                         }
                     }
                     o.insert("oaddr".into(), json!(oaddr));
@@ -1218,7 +1226,7 @@ fn run_prep(sc: &mut dyn ScopeOps, ctx: &mut Ctx<'_>) {
     let i = ctx.pc;
     ctx.pc += 1;
     let args = ctx.steps[i]["args"].clone();
-    let (esz, eal, rev, c0) = (u(&args, "esz"), u(&args, "eal"), b(&args, "rev"), u(&args, "cap"));
+    let (mut esz, mut eal, rev, c0) = (u(&args, "esz"), u(&args, "eal"), b(&args, "rev"), u(&args, "cap"));
     let via = if ctx.variant == "dyn" { "dyn" } else if b(&args, "str") { "string" } else { "typed" };
     let before = sc.snapshot();
     let ma = sc.min_align();
@@ -1312,6 +1320,36 @@ fn run_prep(sc: &mut dyn ScopeOps, ctx: &mut Ctx<'_>) {
                     decorate(&mut o, pb.len(), pb.cap());
                     let snap = pb.snapshot();
                     ctx.record_snap(j, Some((snap, ma)), o);
+                }
+                "prep_map" => {
+                    ctx.pc += 1;
+                    let pb = coll.take().unwrap();
+                    let r = catch_unwind(AssertUnwindSafe(move || pb.map_smaller()));
+                    let mut o = match r {
+                        Ok(Some(nb)) => {
+                            coll = Some(nb);
+                            esz = u(&jargs, "esz");
+                            eal = u(&jargs, "eal");
+                            Ctx::obs("ok")
+                        }
+                        Ok(None) => {
+                            ctx.aborted = Some("map_in_place is not available for this collection".into());
+                            break;
+                        }
+                        Err(e) => {
+                            let mut o = Ctx::obs("panic");
+                            o.insert("msg".into(), json!(panic_msg(&e)));
+                            o
+                        }
+                    };
+                    match coll.as_ref() {
+                        Some(pb) => {
+                            decorate(&mut o, pb.len(), pb.cap());
+                            let snap = pb.snapshot();
+                            ctx.record_snap(j, Some((snap, ma)), o);
+                        }
+                        None => break,
+                    }
                 }
                 "prep_reserve" => {
                     ctx.pc += 1;
